@@ -110,7 +110,7 @@ def inv_chroma_mordant(new_note, last_note, next_note):
 
 def grupetto(new_note, last_note, next_note):
     duration = new_note.duration
-    if duration >= frac(1):
+    if duration >= frac(3, 2):
         mordant_duration = frac(1, 2)
         new_note = new_note.n + L.su1.set_duration(mordant_duration) + new_note.set_duration(mordant_duration) \
                    + L.sd1.set_duration(mordant_duration) + L.su1.set_duration(duration - 3 * mordant_duration)
